@@ -14,7 +14,7 @@ import os
 import struct
 
 import numpy as np
-from cherab.core.atomic import hydrogen, deuterium, helium, carbon, neon, protium
+from cherab.core.atomic import hydrogen, deuterium, helium, carbon, neon, protium, helium3, carbon13
 import cherab.openadas.repository as R
 import cherab.openadas.repository.atomic as m_atomic
 import cherab.openadas.repository.pec as m_pec
@@ -38,9 +38,9 @@ from ..seams.simfs import SimFS, install as fs_install
 from ..seams import adfwriters as W
 
 # "H1" is the isotope protium: a different object from hydrogen with the *same symbol* 'H' (same repository key, same file)
-SPECIES = {"H": hydrogen, "D": deuterium, "He": helium, "C": carbon, "Ne": neon, "H1": protium}
-ZNUM = {"H": 1, "D": 1, "He": 2, "C": 6, "Ne": 10, "H1": 1}
-SYMBOL = {"H": "H", "D": "D", "He": "He", "C": "C", "Ne": "Ne", "H1": "H"}
+SPECIES = {"H": hydrogen, "D": deuterium, "He": helium, "C": carbon, "Ne": neon, "H1": protium, "He3": helium3, "C13": carbon13}
+ZNUM = {"H": 1, "D": 1, "He": 2, "C": 6, "Ne": 10, "H1": 1, "He3": 2, "C13": 6}
+SYMBOL = {"H": "H", "D": "D", "He": "He", "C": "C", "Ne": "Ne", "H1": "H", "He3": "He3", "C13": "C13"}   # symbols differing in digits only are different species
 ROOTS = ["/sim/root1", "/sim/root1x/", "/sim/other/deep/repo"]
 TRANSITIONS = [[3, 2], [4, 2], [5, 3], ["2s1 2P0.5", "1S0"], ["2S1 2p0.5", "1s0"], ["3d 2D2.5", "2p 2P1.5"], [2, 1],
                ["2s1  2P0.5", "1S0"], [" 2s1 2p0.5", "1s0 "], ["3", "2"]]     # white-space variants are *different* keys; "3" aliases 3
